@@ -95,6 +95,8 @@ impl AbstractTree for Tree {
     fn get_version_history_lock(
         &self,
     ) -> std::sync::RwLockWriteGuard<'_, crate::version::SuperVersions> {
+        #[cfg(feature = "verif_hooks")]
+        crate::verif_hooks::before_lock(crate::verif_hooks::LockId::VersionHistory, crate::verif_hooks::Mode::Write);
         #[expect(clippy::expect_used, reason = "lock is expected to not be poisoned")]
         self.version_history.write().expect("lock is poisoned")
     }
@@ -112,6 +114,8 @@ impl AbstractTree for Tree {
     }
 
     fn print_trace(&self, key: &[u8]) -> crate::Result<()> {
+        #[cfg(feature = "verif_hooks")]
+        crate::verif_hooks::before_lock(crate::verif_hooks::LockId::VersionHistory, crate::verif_hooks::Mode::Read);
         #[expect(clippy::expect_used, reason = "lock is expected to not be poisoned")]
         let super_version = self
             .version_history
@@ -155,6 +159,8 @@ impl AbstractTree for Tree {
     }
 
     fn get_internal_entry(&self, key: &[u8], seqno: SeqNo) -> crate::Result<Option<InternalValue>> {
+        #[cfg(feature = "verif_hooks")]
+        crate::verif_hooks::before_lock(crate::verif_hooks::LockId::VersionHistory, crate::verif_hooks::Mode::Read);
         #[expect(clippy::expect_used, reason = "lock is expected to not be poisoned")]
         let super_version = self
             .version_history
@@ -166,6 +172,8 @@ impl AbstractTree for Tree {
     }
 
     fn current_version(&self) -> Version {
+        #[cfg(feature = "verif_hooks")]
+        crate::verif_hooks::before_lock(crate::verif_hooks::LockId::VersionHistory, crate::verif_hooks::Mode::Read);
         #[expect(clippy::expect_used, reason = "lock is expected to not be poisoned")]
         self.version_history
             .read()
@@ -175,6 +183,8 @@ impl AbstractTree for Tree {
     }
 
     fn get_flush_lock(&self) -> std::sync::MutexGuard<'_, ()> {
+        #[cfg(feature = "verif_hooks")]
+        crate::verif_hooks::before_lock(crate::verif_hooks::LockId::Flush, crate::verif_hooks::Mode::Lock);
         #[expect(clippy::expect_used, reason = "lock is expected to not be poisoned")]
         self.flush_lock.lock().expect("lock is poisoned")
     }
@@ -185,6 +195,8 @@ impl AbstractTree for Tree {
     }
 
     fn version_free_list_len(&self) -> usize {
+        #[cfg(feature = "verif_hooks")]
+        crate::verif_hooks::before_lock(crate::verif_hooks::LockId::VersionHistory, crate::verif_hooks::Mode::Read);
         #[expect(clippy::expect_used, reason = "lock is expected to not be poisoned")]
         self.version_history
             .read()
@@ -250,6 +262,8 @@ impl AbstractTree for Tree {
         let strategy = Arc::new(crate::compaction::drop_range::Strategy::new(bounds));
 
         // IMPORTANT: Write lock so we can be the only compaction going on
+        #[cfg(feature = "verif_hooks")]
+        crate::verif_hooks::before_lock(crate::verif_hooks::LockId::MajorCompaction, crate::verif_hooks::Mode::Write);
         #[expect(clippy::expect_used, reason = "lock is expected to not be poisoned")]
         let _lock = self
             .0
@@ -299,6 +313,8 @@ impl AbstractTree for Tree {
         let strategy = Arc::new(crate::compaction::major::Strategy::new(target_size));
 
         // IMPORTANT: Write lock so we can be the only compaction going on
+        #[cfg(feature = "verif_hooks")]
+        crate::verif_hooks::before_lock(crate::verif_hooks::LockId::MajorCompaction, crate::verif_hooks::Mode::Write);
         #[expect(clippy::expect_used, reason = "lock is expected to not be poisoned")]
         let _lock = self
             .0
@@ -345,6 +361,8 @@ impl AbstractTree for Tree {
     }
 
     fn sealed_memtable_count(&self) -> usize {
+        #[cfg(feature = "verif_hooks")]
+        crate::verif_hooks::before_lock(crate::verif_hooks::LockId::VersionHistory, crate::verif_hooks::Mode::Read);
         #[expect(clippy::expect_used, reason = "lock is expected to not be poisoned")]
         self.version_history
             .read()
@@ -460,8 +478,12 @@ impl AbstractTree for Tree {
             blob_files.map(<[BlobFile]>::len).unwrap_or_default(),
         );
 
+        #[cfg(feature = "verif_hooks")]
+        crate::verif_hooks::before_lock(crate::verif_hooks::LockId::CompactionState, crate::verif_hooks::Mode::Lock);
         #[expect(clippy::expect_used, reason = "lock is expected to not be poisoned")]
         let mut _compaction_state = self.compaction_state.lock().expect("lock is poisoned");
+        #[cfg(feature = "verif_hooks")]
+        crate::verif_hooks::before_lock(crate::verif_hooks::LockId::VersionHistory, crate::verif_hooks::Mode::Write);
         #[expect(clippy::expect_used, reason = "lock is expected to not be poisoned")]
         let mut version_lock = self.version_history.write().expect("lock is poisoned");
 
@@ -507,6 +529,8 @@ impl AbstractTree for Tree {
     fn clear_active_memtable(&self) {
         use crate::tree::sealed::SealedMemtables;
 
+        #[cfg(feature = "verif_hooks")]
+        crate::verif_hooks::before_lock(crate::verif_hooks::LockId::VersionHistory, crate::verif_hooks::Mode::Write);
         #[expect(clippy::expect_used, reason = "lock is expected to not be poisoned")]
         let mut version_history_lock = self.version_history.write().expect("lock is poisoned");
         let super_version = version_history_lock.latest_version();
@@ -535,6 +559,8 @@ impl AbstractTree for Tree {
         // NOTE: Read lock major compaction lock
         // That way, if a major compaction is running, we cannot proceed
         // But in general, parallel (non-major) compactions can occur
+        #[cfg(feature = "verif_hooks")]
+        crate::verif_hooks::before_lock(crate::verif_hooks::LockId::MajorCompaction, crate::verif_hooks::Mode::Read);
         #[expect(clippy::expect_used, reason = "lock is expected to not be poisoned")]
         let _lock = self
             .0
@@ -554,6 +580,8 @@ impl AbstractTree for Tree {
     }
 
     fn active_memtable(&self) -> Arc<Memtable> {
+        #[cfg(feature = "verif_hooks")]
+        crate::verif_hooks::before_lock(crate::verif_hooks::LockId::VersionHistory, crate::verif_hooks::Mode::Read);
         #[expect(clippy::expect_used, reason = "lock is expected to not be poisoned")]
         self.version_history
             .read()
@@ -564,6 +592,8 @@ impl AbstractTree for Tree {
 
     #[expect(clippy::significant_drop_tightening)]
     fn rotate_memtable(&self) -> Option<Arc<Memtable>> {
+        #[cfg(feature = "verif_hooks")]
+        crate::verif_hooks::before_lock(crate::verif_hooks::LockId::VersionHistory, crate::verif_hooks::Mode::Write);
         #[expect(clippy::expect_used, reason = "lock is expected to not be poisoned")]
         let mut version_history_lock = self.version_history.write().expect("lock is poisoned");
         let super_version = version_history_lock.latest_version();
@@ -601,6 +631,8 @@ impl AbstractTree for Tree {
     }
 
     fn approximate_len(&self) -> usize {
+        #[cfg(feature = "verif_hooks")]
+        crate::verif_hooks::before_lock(crate::verif_hooks::LockId::VersionHistory, crate::verif_hooks::Mode::Read);
         #[expect(clippy::expect_used, reason = "lock is expected to not be poisoned")]
         let super_version = self
             .version_history
@@ -635,6 +667,8 @@ impl AbstractTree for Tree {
     }
 
     fn get_highest_memtable_seqno(&self) -> Option<SeqNo> {
+        #[cfg(feature = "verif_hooks")]
+        crate::verif_hooks::before_lock(crate::verif_hooks::LockId::VersionHistory, crate::verif_hooks::Mode::Read);
         #[expect(clippy::expect_used, reason = "lock is expected to not be poisoned")]
         let version = self
             .version_history
@@ -775,6 +809,8 @@ impl Tree {
     }
 
     pub(crate) fn get_version_for_snapshot(&self, seqno: SeqNo) -> SuperVersion {
+        #[cfg(feature = "verif_hooks")]
+        crate::verif_hooks::before_lock(crate::verif_hooks::LockId::VersionHistory, crate::verif_hooks::Mode::Read);
         #[expect(clippy::expect_used, reason = "lock is expected to not be poisoned")]
         self.version_history
             .read()
@@ -853,6 +889,8 @@ impl Tree {
     #[doc(hidden)]
     #[must_use]
     pub fn is_compacting(&self) -> bool {
+        #[cfg(feature = "verif_hooks")]
+        crate::verif_hooks::before_lock(crate::verif_hooks::LockId::CompactionState, crate::verif_hooks::Mode::Lock);
         #[expect(clippy::expect_used, reason = "lock is expected to not be poisoned")]
         !self
             .compaction_state
@@ -896,6 +934,8 @@ impl Tree {
         seqno: SeqNo,
         ephemeral: Option<(Arc<Memtable>, SeqNo)>,
     ) -> impl DoubleEndedIterator<Item = crate::Result<KvPair>> + 'static {
+        #[cfg(feature = "verif_hooks")]
+        crate::verif_hooks::before_lock(crate::verif_hooks::LockId::VersionHistory, crate::verif_hooks::Mode::Read);
         #[expect(clippy::expect_used, reason = "lock is expected to not be poisoned")]
         let super_version = self
             .version_history
@@ -928,6 +968,8 @@ impl Tree {
     #[doc(hidden)]
     #[must_use]
     pub fn append_entry(&self, value: InternalValue) -> (u64, u64) {
+        #[cfg(feature = "verif_hooks")]
+        crate::verif_hooks::before_lock(crate::verif_hooks::LockId::VersionHistory, crate::verif_hooks::Mode::Read);
         #[expect(clippy::expect_used, reason = "lock is expected to not be poisoned")]
         self.version_history
             .read()
